@@ -36,9 +36,12 @@ type LoopSpec struct {
 }
 
 type CallSpec struct { // clauses attached to the k-th call of a callee
-	Callee string
-	N      int
-	Lemmas []Clause
+	Callee  string
+	N       int
+	Lemmas  []Clause // instantiated before the call
+	Witness []Clause // named values captured right after the call
+	Asserts []Clause // intermediate obligations right after the call (then assumed)
+	After   []Clause // lemma instances right after the call
 }
 
 type Param struct {
@@ -64,6 +67,7 @@ type FuncContract struct {
 	Witness  []Clause
 	Lemmas   []Clause
 	Unfolds  []Clause // lemma instances assumed at function entry
+	Reveal   []string // opaque spec functions whose definitions this proof needs
 	Loops    map[int]*LoopSpec
 	Calls    []*CallSpec
 	Roles    []string
@@ -87,12 +91,14 @@ type SpecFn struct {
 	Body    ast.Expr // nil: uninterpreted
 	Reads   []string // "T.f" heap fields passed implicitly (uninterpreted heap-reading functions)
 	Heap    bool     // uninterpreted over the heap version token (frame rule of DESIGN 3.3)
+	Opaque  bool     // definition hidden unless the function under verification reveals it
 	Unfolds map[string]*Lemma
 	File    string
 	Line    int
 }
 
 type Lemma struct {
+	Reveal   []string
 	PkgPath  string
 	Name     string
 	Params   []Param
@@ -297,7 +303,7 @@ var topKeywords = map[string]bool{"func": true, "closure": true, "spec": true, "
 var clauseKeywords = map[string]bool{"requires": true, "ensures": true, "modifies": true, "safety": true, "pure": true,
 	"inline": true, "may_panic": true, "witness": true, "lemma": true, "role": true, "holds": true, "acquires": true,
 	"decreases": true, "loop": true, "invariant": true, "unfold": true, "method": true, "reads": true, "trusted": true,
-	"assumed": true, "terminates": true, "call": true, "hint": true, "anchor": true}
+	"assumed": true, "terminates": true, "call": true, "hint": true, "anchor": true, "reveal": true, "assert": true, "after": true}
 
 func firstWord(s string) string {
 	s = strings.TrimSpace(s)
@@ -482,6 +488,8 @@ func (cs *Contracts) parseFuncClauses2(fc *FuncContract, loop *LoopSpec, call *C
 				fc.Unfolds = append(fc.Unfolds, parseLemmaCall(part, path, l.line))
 			}
 		}
+	case "reveal":
+		fc.Reveal = append(fc.Reveal, splitTop(rest, ',')...)
 	case "modifies":
 		for _, m := range splitTop(rest, ',') {
 			if m == "" {
@@ -511,7 +519,27 @@ func (cs *Contracts) parseFuncClauses2(fc *FuncContract, loop *LoopSpec, call *C
 		k := strings.Index(rest, "=")
 		name := strings.TrimSpace(rest[:k])
 		body := strings.TrimSpace(rest[k+1:])
-		fc.Witness = append(fc.Witness, Clause{Kind: "witness", Name: name, Text: body, Expr: parseExprAt(body, path, l.line), File: path, Line: l.line})
+		w := Clause{Kind: "witness", Name: name, Text: body, Expr: parseExprAt(body, path, l.line), File: path, Line: l.line}
+		if call != nil {
+			call.Witness = append(call.Witness, w)
+		} else {
+			fc.Witness = append(fc.Witness, w)
+		}
+	case "assert":
+		if call == nil {
+			fatalf("%s:%d: assert is only allowed in a call section", path, l.line)
+		}
+		call.Asserts = append(call.Asserts, mk("assert"))
+	case "after":
+		if call == nil {
+			fatalf("%s:%d: after is only allowed in a call section", path, l.line)
+		}
+		r2 := strings.TrimSpace(strings.TrimPrefix(rest, "lemma"))
+		for _, part := range splitTop(r2, ';') {
+			if part != "" {
+				call.After = append(call.After, parseLemmaCall(part, path, l.line))
+			}
+		}
 	case "role":
 		fc.Roles = append(fc.Roles, splitTop(rest, ',')...)
 	case "holds":
@@ -566,6 +594,10 @@ func (cs *Contracts) parseBlock(b []cline, path, pkgPath string) {
 		sf := &SpecFn{PkgPath: pkgPath, File: path, Line: head.line, Unfolds: map[string]*Lemma{}}
 		if strings.HasPrefix(rest, "rec ") {
 			rest = strings.TrimSpace(rest[4:])
+		}
+		if strings.HasPrefix(rest, "opaque ") {
+			rest = strings.TrimSpace(rest[7:])
+			sf.Opaque = true
 		}
 		// merge continuation lines that are not unfold/reads
 		var tail []cline
@@ -628,7 +660,12 @@ func (cs *Contracts) parseBlock(b []cline, path, pkgPath string) {
 	case "lemma", "axiom":
 		text := rest
 		var hints []Clause
+		var reveal []string
 		for _, l := range b[1:] {
+			if firstWord(l.text) == "reveal" {
+				reveal = append(reveal, splitTop(strings.TrimSpace(l.text[len("reveal"):]), ',')...)
+				continue
+			}
 			if firstWord(l.text) == "hint" {
 				for _, part := range splitTop(strings.TrimSpace(l.text[4:]), ';') {
 					if part != "" {
@@ -643,6 +680,7 @@ func (cs *Contracts) parseBlock(b []cline, path, pkgPath string) {
 		lm := parseLemmaDecl(body, path, head.line)
 		lm.Tags = tags
 		lm.Hints = hints
+		lm.Reveal = reveal
 		lm.PkgPath = pkgPath
 		lm.Trusted = kw == "axiom"
 		if cs.Lemmas[lm.Name] != nil {
